@@ -27,7 +27,9 @@ Clauses(o, ev, o2) ==
             IF ev.kind = "access" /\ Acc(o, ev.app) >= 1
             THEN <<F("second-access-record",
                      IF App(o, ev.app).kind = "websocket" THEN "websocket"
-                     ELSE IF Get(o.accFirst, ev.app, 0) = -1 THEN "http-closed-record-then-completion-record"
+                     ELSE IF Get(o.accFirst, ev.app, 0) = -1 /\ App(o, ev.app).final
+                          THEN "http-closed-record-then-completion-record"
+                     ELSE IF Get(o.accFirst, ev.app, 0) = -1 THEN "http-closed-record-then-unfinished-application"
                      ELSE "http")>>
             ELSE <<>>
       [] ev.e = "quiescent" /\ o.final ->
